@@ -7,3 +7,7 @@ mkdir -p .build work evidence replays
 ./gen_registry.py
 (cd lean && lake build TrustVerif driver)
 (cd harness && cargo build --offline --features verif-hooks)
+# the language server binary with the text hook (C14, C15); checks rebuild it on every run as well
+cargo build --offline --manifest-path /repo/Cargo.toml -p trust-lsp --features verif-hooks --target-dir "$PWD/.build/lsp"
+# the DAP adapter binary (C17 regression replay); the check rebuilds it on every run as well
+cargo build --offline --manifest-path /repo/Cargo.toml -p trust-debug --target-dir "$PWD/.build/dap"
